@@ -38,10 +38,10 @@ DEPTHS = list(range(0, MAXDEPTH + 1))
 
 BOUNDS = {
     "quick": dict(Scope="q", FullDepth=3, Levels=1, MaxN1=1, MaxN2=2,
-                  n_random_pts=1500, n_rs_pts=120, cover_conc=6, cover_rand=160, cover_rs_rand=40, cover_star=400, pairs_star=300, HistN2=1, HistCalls=2, hist_rand=150, hist_rs_rand=50, reps_per_row=2,
+                  n_random_pts=1500, n_rs_pts=120, cover_conc=6, cover_rand=160, cover_rs_rand=40, cover_star=400, pairs_star=300, HistN2=1, HistCalls=2, hist_rand=150, hist_rs_rand=50, reps_per_row=2, ScaleSizes={100000, 100001, 250000}, deep_star=250,
                   pairs_rand=500, pairs_rs_rand=200, cap_cover=2e5, cap_pairs=3e4, cap_span=2e4),
     "thorough": dict(Scope="t", FullDepth=5, Levels=2, MaxN1=1, MaxN2=2,
-                     n_random_pts=40000, n_rs_pts=414, cover_conc=8, cover_rand=3000, cover_rs_rand=500, cover_star=5000, pairs_star=3000, HistN2=1, HistCalls=3, hist_rand=2500, hist_rs_rand=800, reps_per_row=12,
+                     n_random_pts=40000, n_rs_pts=414, cover_conc=8, cover_rand=3000, cover_rs_rand=500, cover_star=5000, pairs_star=3000, HistN2=1, HistCalls=3, hist_rand=2500, hist_rs_rand=800, reps_per_row=12, ScaleSizes={65535, 65536, 65537, 100000, 100001, 131073, 200000, 200001, 250000, 300007, 1048577}, deep_star=4000,
                      pairs_rand=6000, pairs_rs_rand=3000, cap_cover=2e6, cap_pairs=6e4, cap_span=6e4),
 }
 LIST_MAX = 48          # intersect lists up to this length are written out and re-projected by TLC
@@ -580,6 +580,110 @@ def rand_history_cases(rng, n, lat, rs_pts):
     return out
 
 
+_SMALL_FN = None
+
+
+def _small_call(x):
+    return _SMALL_FN(x)
+
+
+def pmap_small(fn, items):
+    """fork-parallel map for a few heavy jobs (vh.par.pmap runs fewer than 64 items serially)"""
+    global _SMALL_FN
+    import multiprocessing as mp
+    nproc = max(1, min(len(items), 16, os.cpu_count() or 1, int(os.environ.get("VH_MAX_WORKERS", "16"))))
+    if nproc == 1:
+        return [fn(x) for x in items]
+    _SMALL_FN = fn
+    try:
+        with mp.get_context("fork").Pool(nproc) as pool:
+            return list(pool.imap(_small_call, items, 1))
+    finally:
+        _SMALL_FN = None
+
+
+def concretise_scale(case, rng, B):
+    epss = pairs_eps_choices(case)
+    if not epss:
+        return []
+    return [{"abs": case, "circle": rng.randrange(len(hl.CIRCLES)) if case["lat"] == "gc" else 0, "eps": rng.choice(epss),
+             "unit": rng.choice([1, 2, F(1, 8)]), "pick": rng.randrange(1 << 30)}]
+
+
+def run_scale(job):
+    """a first list of n = tiles*m + rem points (the small unit tiled, its per-point scale tiled alike) against the same
+    implementation on the unit and on the unit's first rem points"""
+    c = job["abs"]
+    lat = c["lat"]
+    eps = hl.EPS[job["eps"]] if lat == "gc" else None
+    circle = hl.CIRCLES[job["circle"]]
+    ra1, dec1 = hl.points(lat, c["p1"], circle, eps)
+    ra2, dec2 = hl.points(lat, c["p2"], circle, eps)
+    rmin, rmax, nbin, sc = hl.bin_args(lat, c["edges"], c["scale"], eps, job["unit"])
+    m, n, tiles, rem = len(ra1), c["n"], c["tiles"], c["rem"]
+    ang = hl.max_angle_deg(lat, c["edges"], c["scale"], eps)
+    ds = [d for d in _allowed_depths(ra1, ra2, dec2, ang, 40.0 * m, 1e4)]          # few trixels per point: n points are walked
+    depth = ds[job["pick"] % len(ds)]
+    h = htm(depth)
+
+    def call(a, d, s):
+        o = {"err": "none", "counts": []}
+        try:
+            kw = {}
+            if s is not None:
+                kw["scale"] = s[0] if len(c["scale"]) == 1 else np.array(s)
+            o["counts"] = [int(v) for v in np.asarray(h.bincount(rmin, rmax, nbin, np.array(a), np.array(d), np.array(ra2), np.array(dec2), **kw)[2]).ravel()]
+        except Exception as e:  # noqa
+            o["err"] = _ename(e)
+        return o
+
+    per_point = sc is not None and len(c["scale"]) > 1
+    uobs = call(ra1, dec1, sc)
+    robs = call(ra1[:rem], dec1[:rem], (sc[:rem] if per_point else sc)) if rem else {"err": "none", "counts": []}
+    tile = lambda v: np.concatenate([np.tile(np.array(v, dtype="f8"), tiles), np.array(v[:rem], dtype="f8")])      # noqa
+    bobs = call(tile(ra1), tile(dec1), (tile(sc) if per_point else sc))
+    rec = {"kind": "scale", "lat": lat, "p1": c["p1"], "p2": c["p2"], "edges": c["edges"], "scale": c["scale"],
+           "n": n, "tiles": tiles, "rem": rem, "uobs": uobs, "robs": robs, "bobs": bobs}
+    return rec, {"rmin": rmin, "rmax": rmax, "nbin": nbin, "scale_arg": sc, "depth": depth}
+
+
+DEEP_EPS = ["1e-4", "5e-5", "2e-5", "1e-5", "5e-6", "2e-6", "1e-6"]
+for _k in DEEP_EPS:
+    hl.EPS.setdefault(_k, F(int(_k[0]), 10 ** int(_k[3:])))
+
+
+def rand_star_cover_deep(rng, n, cap):
+    """circles of a few leaf sizes at depths 13..24 around arbitrary centres, probes on 48 rays just inside and just
+    outside.  A probe is >= 1.5e-15/sin(r) rad (in the cosine: 1.5e-15, some 4x the rounding of cos(r) and of the
+    corner tests) away from the circle: eps is chosen per circle to guarantee that (input selection only)."""
+    out = []
+    tries = 0
+    while len(out) < n and tries < 50 * n:
+        tries += 1
+        depth = rng.randrange(13, 25)
+        leaf = 90.0 / 2 ** depth
+        target = leaf * rng.uniform(0.8, 8.0)
+        key = rng.choice(DEEP_EPS)
+        eps = hl.EPS[key]
+        h = int(round(2 * target / float(eps))) | 1
+        if not 3 <= h <= 81:
+            continue
+        r = float(h * eps / 2)
+        if float(eps) / 2 < 8.6e-14 / np.sin(np.radians(r)) or hl.trixels_in_cap(r, depth) > cap:
+            continue
+        ndir = 48
+        phi0 = rng.uniform(0.0, 360.0)
+        probes, dirs = [[0, 0]], [0.0]
+        for d in range(ndir):
+            phi = (phi0 + 360.0 * d / ndir + rng.uniform(-2, 2)) % 360.0
+            for t in (-3, -1, 1, 3, 5):
+                probes.append([0, (h + t) // 2])
+                dirs.append(phi)
+        case = {"kind": "cover", "lat": "gc", "c": [0, 0], "rad": [0, h], "probes": probes}
+        out.append((case, {"centre": rand_centre(rng), "dirs": dirs}, key, depth))
+    return out
+
+
 def rand_pairs_cases(rng, n, lat, rs_pts):
     out = []
     while len(out) < n:
@@ -899,6 +1003,12 @@ def judge(ctx, items, what):
                 sig = "intersect|%s|%s" % (cl, _cover_class(rec, meta))
                 msg = "intersect(ra=%r, dec=%r, radius=%r) at depth %d violates clause %s (%d listed, %d full)" % (
                     meta["ra"], meta["dec"], meta["radius"], rec["depth"], cl, meta["nincl"], meta["nfull"])
+            elif rec["kind"] == "scale":
+                sig = "bincount|%s|%s" % (cl, _pairs_class(rec, cl))
+                msg = ("bincount with a first list of %d points (a %d-point lattice configuration tiled, scale %s) at depth %d: clause %s; "
+                       "on the unit %s, on its first %d points %s, on all %d points %s" % (
+                           rec["n"], len(rec["p1"]), "none" if not rec["scale"] else "scalar" if len(rec["scale"]) == 1 else "per point",
+                           meta["depth"], cl, rec["uobs"], rec["rem"], rec["robs"], rec["n"], rec["bobs"]))
             elif rec["kind"] == "history":
                 k = next((n for n, c in enumerate(rec["calls"]) if n >= (1 if cl.startswith("after_overwrite_") else 0)), 0)
                 sig = "bincount|%s|%s" % (cl, _pairs_class(rec["calls"][k], cl.replace("after_overwrite_", "")))
@@ -911,7 +1021,8 @@ def judge(ctx, items, what):
                 msg = "bincount(rmin=%r, rmax=%r, nbin=%d, scale=%s) differs from the brute-force count: clause %s; observed %s %s" % (
                     meta["rmin"], meta["rmax"], meta["nbin"], meta["scale_arg"], cl, [(o["var"], o["err"], o["counts"]) for o in rec["obs"]],
                     _pairs_detail(rec))
-            ctx.violation(sig, msg, dict(rp, observed=rec.get("obs") or ([c["obs"] for c in rec["calls"]] if "calls" in rec else None) or {k: rec[k] for k in ("ids", "sids") if k in rec} or
+            ctx.violation(sig, msg, dict(rp, observed=rec.get("obs") or ([c["obs"] for c in rec["calls"]] if "calls" in rec else None) or
+                                         ({k: rec[k] for k in ("uobs", "robs", "bobs")} if rec["kind"] == "scale" else None) or {k: rec[k] for k in ("ids", "sids") if k in rec} or
                                          {"cin": rec.get("cin"), "pin": rec.get("pin"), "pfull": rec.get("pfull")}))
     return rejects
 
@@ -953,7 +1064,7 @@ def _tlc_batch(ctx, jobs, width=4):
 
 def _consts(B, **kw):
     c = dict(Part="ids", Lat="gc", Scope=B["Scope"], FullDepth=B["FullDepth"], MaxDepth=MAXDEPTH, Levels=B["Levels"],
-             MaxN1=B["MaxN1"], MaxN2=B["MaxN2"], Deviation="none", DoExport=False, HistN2=B["HistN2"], HistCalls=B["HistCalls"])
+             MaxN1=B["MaxN1"], MaxN2=B["MaxN2"], Deviation="none", DoExport=False, HistN2=B["HistN2"], HistCalls=B["HistCalls"], ScaleSizes=set(B["ScaleSizes"]))
     c.update(kw)
     return c
 
@@ -980,10 +1091,10 @@ def run(ctx):
                                                           invariants=["CoverCaseSane"]),
              workers=4, require=["CoverCase"], timeout=3000),
         dict(what="pairs gc: cbincount mechanism refines brute force; reference accepted",
-             cfg_text=cfg(constants=_consts(B, Part="pairs", Lat="gc"), invariants=["PairMechRefines", "PairRefAccepted"]),
+             cfg_text=cfg(constants=_consts(B, Part="pairs", Lat="gc"), invariants=["PairMechRefines", "PairRefAccepted", "PairAdditive"]),
              workers=4, require=["ChooseP2", "ChooseP1", "ChooseBins", "ChooseScale", "MechStep", "MechDone"], timeout=3000),
         dict(what="pairs rs: cbincount mechanism refines brute force; reference accepted",
-             cfg_text=cfg(constants=_consts(B, Part="pairs", Lat="rs"), invariants=["PairMechRefines", "PairRefAccepted"]),
+             cfg_text=cfg(constants=_consts(B, Part="pairs", Lat="rs"), invariants=["PairMechRefines", "PairRefAccepted", "PairAdditive"]),
              workers=4, require=["ChooseP2", "ChooseP1", "ChooseBins", "ChooseScale", "MechStep", "MechDone"], timeout=3000),
         dict(what="hist gc: (Overwrite ; Bincount)* on one object, every call equals brute force on its own contents",
              cfg_text=cfg(constants=_consts(histB, Part="hist", Lat="gc"), invariants=["HistMechRefines"]),
@@ -991,6 +1102,12 @@ def run(ctx):
         dict(what="hist rs: (Overwrite ; Bincount)* on one object, every call equals brute force on its own contents",
              cfg_text=cfg(constants=_consts(histB, Part="hist", Lat="rs"), invariants=["HistMechRefines"]),
              workers=4, require=["HStart", "HOverwrite", "HBincount"], timeout=3000),
+        dict(what="big gc: additivity law on two tiles + remainder of every scale case",
+             cfg_text=cfg(constants=_consts(histB, Part="big", Lat="gc", Scope=B["Scope"]), invariants=["ScaleLaw"]),
+             workers=4, require=["ChooseScaleCase"], timeout=3000),
+        dict(what="big rs: additivity law on two tiles + remainder of every scale case",
+             cfg_text=cfg(constants=_consts(histB, Part="big", Lat="rs", Scope=B["Scope"]), invariants=["ScaleLaw"]),
+             workers=4, require=["ChooseScaleCase"], timeout=3000),
         dict(what="reps: covering design of argument representations (entry point x argument x representation x partner)",
              cfg_text=cfg(constants=_consts(small, Part="reps"), invariants=["RepDesignOK", "RepRowSane"]),
              workers=2, require=["ChooseRep"], timeout=600),
@@ -1012,6 +1129,9 @@ def run(ctx):
     exports += [dict(what="export bincount histories %s" % lat,
                      cfg_text=cfg(constants=_consts(histB, Part="hist", Lat=lat, DoExport=True), next_="NextExport", constraints=["Export"]),
                      workers=1, coverage=False, timeout=3000) for lat in ("gc", "rs")]
+    exports += [dict(what="export scale cases %s" % lat,
+                     cfg_text=cfg(constants=_consts(histB, Part="big", Lat=lat, Scope=B["Scope"], DoExport=True), next_="NextExport", constraints=["Export"]),
+                     workers=1, coverage=False, timeout=3000) for lat in ("gc", "rs")]
     exports.append(dict(what="export representation rows", cfg_text=cfg(constants=_consts(small, Part="reps", DoExport=True), next_="NextExport",
                                                                     constraints=["Export"]), workers=1, coverage=False, timeout=600))
     if want("mc"):
@@ -1025,7 +1145,8 @@ def run(ctx):
     pairs_cases = [c for c in cases if c["kind"] == "pairs"]
     hist_cases = [c for c in cases if c["kind"] == "history"]
     rep_rows = [c for c in cases if c["kind"] == "reps"]
-    if not cover_cases or not pairs_cases or not hist_cases or not rep_rows or {c["lat"] for c in cases if "lat" in c} != {"gc", "rs"}:
+    scale_cases = [c for c in cases if c["kind"] == "scale"]
+    if not cover_cases or not pairs_cases or not hist_cases or not rep_rows or not scale_cases or {c["lat"] for c in cases if "lat" in c} != {"gc", "rs"}:
         raise MachineryError("no cases exported (%d circles, %d pair problems)" % (len(cover_cases), len(pairs_cases)))
 
     ctx.note(star_mapping_worst_deviation_deg=_check_star_mapping(ctx.seed))
@@ -1056,6 +1177,8 @@ def run(ctx):
             jobsC += concretise_cover(c, 2, rng, B["cap_cover"])
         for c, star in rand_star_cover(rng, B["cover_star"]):
             jobsC += concretise_cover(c, 1, rng, B["cap_cover"], star=star)
+        for c, star, key, depth in rand_star_cover_deep(rng, B["deep_star"], B["cap_cover"]):
+            jobsC.append({"abs": c, "circle": 0, "eps": key, "depth": depth, "incl_kw": depth % 2 == 0, "star": star})
         if not jobsC:
             raise MachineryError("no circle could be concretised")
         out = pmap(run_cover, jobsC)
@@ -1073,6 +1196,9 @@ def run(ctx):
         if not any(any(it[0]["pfull"]) for it in items):
             raise MachineryError("vacuous: no probe ever fell into a full triangle")
         ctx.note(cover_depths=depths_seen)
+        deep = [it for it in items if it[0]["depth"] >= 13]
+        if want("cover") and (len({it[0]["depth"] for it in deep}) < 10 or not any(any(it[0]["pfull"]) for it in deep)):
+            raise MachineryError("vacuous: deep circles (depth 13..24) missing or without a probe in a full triangle")
         items_probe["cover"] = next(it for it in items if it[0]["id"] not in rej and it[0]["err"] == "none" and it[0]["lat"] == "gc"
                                     and it[0]["c"] in it[0]["probes"] and it[0]["pin"][it[0]["probes"].index(it[0]["c"])])
 
@@ -1121,6 +1247,24 @@ def run(ctx):
             raise MachineryError("vacuous: no call after an overwrite ever counted a pair")
         items_probe["history"] = next((it for it in items if it[0]["id"] not in rej and len(it[0]["calls"]) >= 2
                                        and all(o["err"] == "none" for cl in it[0]["calls"] for o in cl["obs"])), None)
+
+    # ---- 4s. scale: first lists of 10^5 .. 10^6 points, judged through the additivity law ---------------------------
+    n_scale = 0
+    if want("pairs") or want("scale"):
+        jobsS = []
+        for c in scale_cases:
+            jobsS += concretise_scale(c, rng, B)
+        jobsS.sort(key=lambda j: -j["abs"]["n"])
+        out = pmap_small(run_scale, jobsS)
+        items = [(rec, meta, {"part": "scale", "job": job}) for (rec, meta), job in zip(out, jobsS)]
+        for rec, meta, rp in items:
+            ctx.count({k: rec[k] for k in ("lat", "p1", "p2", "edges", "scale", "n")})
+            ctx.evaluations += 2
+        judge(ctx, items, "judge large first lists through the additivity law (HtmIdsTrace)")
+        n_scale = len(items)
+        if not any(len(it[0]["scale"]) > 1 and sum(it[0]["bobs"]["counts"]) > 0 for it in items):
+            raise MachineryError("vacuous: no large first list with a per-point scale counted a pair")
+        ctx.note(scale_cases=n_scale, scale_sizes=sorted(B["ScaleSizes"]))
 
     # ---- 4c. representations: every exported row of the covering design, replayed on a few problems each -------------
     n_reps = 0
@@ -1235,6 +1379,12 @@ def replay(ctx, case):
     elif part == "cover":
         rec, meta = run_cover(case["job"])
         items = [(rec, meta, {"part": "cover", "job": case["job"]})]
+    elif part == "scale":
+        job = dict(case["job"])
+        if isinstance(job["unit"], str):
+            job["unit"] = F(job["unit"])
+        rec, meta = run_scale(job)
+        items = [(rec, meta, {"part": "scale", "job": case["job"]})]
     elif part == "reps":
         job = case["job"]
         e = job["row"]["entry"]
@@ -1256,5 +1406,5 @@ def replay(ctx, case):
             job["unit"] = F(job["unit"])
         rec, meta = run_pairs(job)
         items = [(rec, meta, {"part": "pairs", "job": case["job"]})]
-    print("replay observed:", {k: v for k, v in items[0][0].items() if k in ("obs", "ids", "sids", "cin", "pin", "pfull", "err", "calls")})
+    print("replay observed:", {k: v for k, v in items[0][0].items() if k in ("obs", "ids", "sids", "cin", "pin", "pfull", "err", "calls", "uobs", "robs", "bobs")})
     judge(ctx, items, "replay")
